@@ -597,6 +597,8 @@ def order_of(ctx: Ctx, f: Func, expr: ast.AST, depth: int = 0, _seen: Optional[S
                 return "unordered", "set(...)"
             if fn.id in ("list", "tuple", "iter", "enumerate") and e.args:
                 return order_of(ctx, f, e.args[0], depth + 1, _seen)
+            if fn.id == "map" and len(e.args) == 2 and not e.keywords:
+                return order_of(ctx, f, e.args[1], depth + 1, _seen)  # one result per element, in the order of the elements
         if isinstance(fn, ast.Attribute) and fn.attr in ("split", "splitlines", "rsplit"):
             r = order_of(ctx, f, fn.value, depth + 1, _seen)
             return (r[0], "split of " + r[1]) if r[0].startswith("ordered") else r
@@ -1056,6 +1058,13 @@ def per_item_unit(ctx: Ctx, f: Func):
     for n in own_nodes(f.node):
         if isinstance(n, (ast.ListComp, ast.GeneratorExp)) and len(n.generators) == 1 and isinstance(n.generators[0].target, ast.Name) and not n.generators[0].ifs:
             m = helper_of(n.elt, n.generators[0].target.id)
+            if m is not None:
+                hp = [pi.nodes for pi in _fp(ctx.cfg(m)) if not pi.raises and pi.ret is not None and not (isinstance(pi.ret, ast.Constant) and pi.ret.value is None)]
+                return (m, m.params[-1], hp, n, True)
+        # list(map(self._conv, items)) / list(map(conv, items)): the helper applied per item, in order
+        if isinstance(n, ast.Call) and isinstance(n.func, ast.Name) and n.func.id == "map" and len(n.args) == 2 and not n.keywords and isinstance(n.args[0], (ast.Name, ast.Attribute)):
+            fake = ast.Call(func=n.args[0], args=[ast.Name(id="item__m", ctx=ast.Load())], keywords=[])
+            m = helper_of(fake, "item__m")
             if m is not None:
                 hp = [pi.nodes for pi in _fp(ctx.cfg(m)) if not pi.raises and pi.ret is not None and not (isinstance(pi.ret, ast.Constant) and pi.ret.value is None)]
                 return (m, m.params[-1], hp, n, True)
